@@ -550,3 +550,305 @@ def shrink_case(case, fails, max_rounds=200):
                 break
             n = min(n * 2, len(ops))
     return dict(case, ops=ops)
+
+
+# ---------------------------------------------------------------------------------------------------------------
+# Glue probes (monitor only): the receive loop, the peer selection and the heartbeat of a completed exchange.
+# The model (and the correspondence) works on packetListener.handlePacket / Gossip.gossip; these probes drive the
+# code AROUND them - packetListener.Serve and Gossip.gossipRound - and compare it with what the modelled pieces do.
+
+def fold_views(case, out):
+    """the real state of every node at the end of the history, from the incremental dumps (expiry: set or not)"""
+    views = {}
+    for ob in out.get("obs") or []:
+        for v in ob["views"]:
+            if v["present"]:
+                vv = dict(v); vv["expiry"] = bool(v["expiry"])
+                views[(v["n"], v["id"])] = vv
+            else:
+                views.pop((v["n"], v["id"]), None)
+    return views
+
+
+def gen_burst_case(rng, cid):
+    """several datagrams queue up for one node and are then read back to back by the real receive loop"""
+    nn = rng.randint(3, 4)
+    nodes = [{"id": H(IDS[i]), "addr": H("10.0.0.%d:7000" % (i + 1))} for i in range(nn)]
+    ops = []
+    for n in range(nn):
+        for j in range(rng.randint(2, 9)):
+            ops.append({"op": "upsert", "n": n, "k": H("k%d-%d" % (n, j)), "v": H(rng.choice(VALS) + "#%d" % j)})
+    for n in range(1, nn):
+        ops.append({"op": "join", "a": n, "b": 0})
+    for _ in range(rng.randint(1, 3)):
+        t = rng.randrange(nn)
+        others = [i for i in range(nn) if i != t]
+        for n in range(nn):
+            for j in range(rng.randint(0, 4)):
+                ops.append({"op": "upsert", "n": n, "k": H("k%d-%d" % (n, rng.randrange(12))), "v": H("w%d" % rng.randrange(100))})
+            if rng.random() < 0.3:
+                ops.append({"op": "delete", "n": n, "k": H("k%d-%d" % (n, rng.randrange(12)))})
+        # requests from everybody else to t, and t's own requests answered by the others: digests (both kinds) and
+        # deltas from different senders are now in flight to t
+        for o in others:
+            ops.append({"op": "send", "a": o, "b": t, "max": 1400})
+        n_before = len(others)
+        for o in rng.sample(others, rng.randint(1, len(others))):
+            ops.append({"op": "send", "a": t, "b": o, "max": 1400})
+            ops.append({"op": "deliver", "i": n_before, "max": 1400})      # the request just sent: o answers delta + digest
+            n_before += 2
+        ops.append({"op": "serve_burst", "n": t, "i": 0})
+        for _ in range(rng.randint(2, 8)):
+            ops.append({"op": "deliver", "i": 0, "max": 1400})
+    # drain
+    for n in range(nn):
+        ops.append({"op": "serve_burst", "n": n, "i": 0})
+    for n in range(nn):
+        ops.append({"op": "serve_burst", "n": n, "i": 0})
+    return {"id": cid, "nodes": nodes, "ops": ops}
+
+
+def expand_bursts(case, out):
+    """the same history with every burst replaced by one-at-a-time deliveries of the same packets in the same order"""
+    ops = []
+    for op, ob in zip(case["ops"], out.get("obs") or []):
+        if op["op"] != "serve_burst":
+            ops.append(op)
+            continue
+        for m, j in enumerate((ob.get("extra") or {}).get("burst") or []):
+            ops.append({"op": "deliver", "i": j - m, "max": 1400})
+    return {"id": case["id"] + "-seq", "nodes": case["nodes"], "ops": ops}
+
+
+def pkt_kinds(sent):
+    return sorted((p["dst"], p["bytes"][:2]) for p in sent)
+
+
+def burst_probe(pid, binary, wd, rng, n):
+    """returns (violations, coverage)"""
+    cases = [gen_burst_case(rng, "burst%d" % i) for i in range(n)]
+    outs = run_world(binary, wd, cases, tag="burst")
+    seqs = [expand_bursts(c, o) for c, o in zip(cases, outs)]
+    souts = run_world(binary, wd, seqs, tag="burstseq")
+    viol, nb, npk, sizes = [], 0, 0, {}
+    for c, o, s, so in zip(cases, outs, seqs, souts):
+        for op, ob in zip(c["ops"], o.get("obs") or []):
+            if op["op"] == "serve_burst":
+                k = len((ob.get("extra") or {}).get("burst") or [])
+                nb += 1; npk += k
+                sizes[str(k)] = sizes.get(str(k), 0) + 1
+        why = None
+        if o.get("panic"):
+            why = "the receive loop crashed or hung: " + o["panic"]
+        elif so.get("panic"):
+            why = "sequential delivery crashed or hung: " + so["panic"]
+        else:
+            fa, fb = fold_views(c, o), fold_views(s, so)
+            if fa != fb:
+                d = sorted(k for k in set(fa) | set(fb) if fa.get(k) != fb.get(k))[0]
+                why = ("after reading the same datagrams back to back, node %s's view of %s is %s; delivered one at a time it is %s"
+                       % (bytes.fromhex(c["nodes"][d[0]]["id"]).decode("latin-1"), bytes.fromhex(d[1]).decode("latin-1"),
+                          json.dumps(fa.get(d), sort_keys=True)[:300], json.dumps(fb.get(d), sort_keys=True)[:300]))
+            else:
+                # the replies: same number, same kinds, same destinations
+                it = iter(so.get("obs") or [])
+                for op, ob in zip(c["ops"], o["obs"]):
+                    if op["op"] != "serve_burst":
+                        next(it, None)
+                        continue
+                    k = len((ob.get("extra") or {}).get("burst") or [])
+                    seq_sent = [p for _ in range(k) for p in (next(it, None) or {"sent": []})["sent"]]
+                    if pkt_kinds(ob["sent"]) != pkt_kinds(seq_sent):
+                        why = ("a burst of %d datagrams was answered with %s, the same datagrams one at a time with %s"
+                               % (k, pkt_kinds(ob["sent"]), pkt_kinds(seq_sent)))
+                        break
+        if why:
+            viol.append({"what": "%s receive-loop probe: %s (history %s)" % (pid, why, c["id"]), "found_input": True,
+                         "replay_obj": {"property": pid, "kind": "burst", "signature": "burst", "why": why, "case": c, "sequential": s}})
+            break
+    return viol, {"histories": len(cases), "bursts": nb, "datagrams": npk, "burst_sizes": sizes}
+
+
+def gen_round_case(rng, cid):
+    """a node with live, unreachable and departed peers runs real gossip rounds (Gossip.gossipRound)"""
+    nn = rng.randint(2, 5)
+    nodes = [{"id": H(IDS[i]), "addr": H("10.0.0.%d:7000" % (i + 1))} for i in range(nn)]
+    ops = [{"op": "upsert", "n": n, "k": H("k"), "v": H("v%d" % n)} for n in range(nn)]
+    for n in range(1, nn):
+        ops.append({"op": "join", "a": n, "b": 0})
+    left = [n for n in range(1, nn) if rng.random() < 0.2]
+    for n in left:
+        ops.append({"op": "leave", "n": n})
+        ops.append({"op": "leavestream", "a": n, "b": 0})
+    mode = rng.choice(["mixed", "all-unreachable", "none-unreachable", "mixed"])
+    lv = {}
+    for n in range(1, nn):
+        if mode == "all-unreachable" or (mode == "mixed" and rng.random() < 0.5):
+            lv[nodes[n]["id"]] = 1e9
+    ops.append({"op": "liveness", "n": 0, "levels": lv})
+    ops.append({"op": "round", "n": 0, "i": 200})
+    return {"id": cid, "nodes": nodes, "ops": ops}
+
+
+def round_monitor(case, out):
+    """peer selection: over 200 rounds every peer that is neither left nor unreachable is contacted, and so is every
+    unreachable peer that has not left (otherwise two healthy nodes that suspect each other, or a recovered node,
+    would never hear from one another again); nobody else is contacted"""
+    if out.get("panic"):
+        return {"why": "panic/timeout: " + out["panic"], "sig": "panic"}
+    views = {}
+    me = {}
+    for op, ob in zip(case["ops"], out["obs"]):
+        for v in ob["views"]:
+            if v["present"]: views[(v["n"], v["id"])] = v
+            else: views.pop((v["n"], v["id"]), None)
+        if op["op"] != "round":
+            continue
+        n = op["n"]
+        myid = case["nodes"][n]["id"]
+        peers = {nid: v for (o, nid), v in views.items() if o == n and nid != myid}
+        counts = {}
+        for r in (ob.get("extra") or {}).get("rounds") or []:
+            for d in r:
+                counts[d] = counts.get(d, 0) + 1
+        by_addr = {v["addr"]: nid for nid, v in peers.items()}
+        nm = lambda h: bytes.fromhex(h).decode("latin-1")
+        for d in counts:
+            if d not in by_addr:
+                return {"why": "gossip round contacted %s, which is not the address of any known peer" % nm(d), "sig": "round-stranger"}
+            v = peers[by_addr[d]]
+            if v["left"] and not v["unreach"]:
+                return {"why": "gossip round contacted %s, which has left the cluster" % nm(by_addr[d]), "sig": "round-left"}
+        for nid, v in peers.items():
+            if v["left"]:
+                continue
+            if counts.get(v["addr"], 0) == 0:
+                kind = "unreachable" if v["unreach"] else "live"
+                others = sorted("%s:%s" % (nm(x), "unreachable" if w["unreach"] else ("left" if w["left"] else "live")) for x, w in peers.items() if x != nid)
+                return {"why": "%d gossip rounds of node %s never contacted its %s peer %s (other peers: %s)"
+                               % (op["i"], nm(myid), kind, nm(nid), ", ".join(others) or "none"), "sig": "round-never-" + kind}
+    return None
+
+
+def gen_idle_exchange_case(rng, cid):
+    """complete digest exchanges on an otherwise empty network, also when neither side has anything new"""
+    nn = rng.randint(2, 3)
+    nodes = [{"id": H(IDS[i]), "addr": H("10.0.0.%d:7000" % (i + 1))} for i in range(nn)]
+    ops = []
+    for n in range(nn):
+        for j in range(rng.randint(0, 3)):
+            ops.append({"op": "upsert", "n": n, "k": H(rng.choice(KEYS[:6])), "v": H(rng.choice(VALS))})
+    for n in range(1, nn):
+        ops.append({"op": "join", "a": n, "b": 0})
+    for _ in range(rng.randint(2, 5)):
+        a = rng.randrange(nn); b = (a + rng.randint(1, nn - 1)) % nn
+        if rng.random() < 0.4:
+            ops.append({"op": "upsert", "n": rng.choice([a, b]), "k": H(rng.choice(KEYS[:6])), "v": H(rng.choice(VALS))})
+        ops.append({"op": "send", "a": a, "b": b, "max": 1400})
+        ops += [{"op": "deliver", "i": 0, "max": 1400} for _ in range(4)]
+    return {"id": cid, "nodes": nodes, "ops": ops}
+
+
+def heartbeat_monitor(case, out):
+    """a digest exchange that completes without loss counts as hearing from one another: the initiator's failure
+    detector is told about the responder and the responder's about the initiator - also when neither had anything
+    new to say (an idle, converged cluster keeps gossiping precisely for that)"""
+    if out.get("panic"):
+        return {"step": 0, "why": "panic/timeout: " + out["panic"], "sig": "panic"}
+    ops, obs = case["ops"], out["obs"]
+    inflight = 0
+    i = 0
+    nn = len(case["nodes"])
+    while i < len(ops):
+        op, ob = ops[i], obs[i]
+        if op["op"] == "send" and inflight == 0 and ob["err"] == "":
+            a, b = op["a"] % nn, op["b"] % nn
+            heard = {a: set(), b: set()}
+            fl = len(ob["sent"])
+            j = i + 1
+            addr2n = {nd["addr"]: k for k, nd in enumerate(case["nodes"])}
+            queue = [H(p["dst"]) for p in ob["sent"]]
+            ok = True
+            while j < len(ops) and queue:
+                o2, b2 = ops[j], obs[j]
+                if o2["op"] != "deliver" or b2.get("skipped"):
+                    ok = False
+                    break
+                dst = addr2n.get(queue.pop(b2["idx"]))
+                if dst in heard:
+                    heard[dst] |= set((b2.get("extra") or {}).get("reports") or [])
+                queue += [H(p["dst"]) for p in b2["sent"]]
+                j += 1
+            if ok and not queue:
+                ida, idb = case["nodes"][a]["id"], case["nodes"][b]["id"]
+                nm = lambda h: bytes.fromhex(h).decode("latin-1")
+                if idb not in heard[a]:
+                    return {"step": i, "why": "node %s completed a digest exchange with %s (%d packets, none lost) but its failure detector was never told it heard from %s"
+                                              % (nm(ida), nm(idb), j - i - 1, nm(idb)), "sig": "no-heartbeat"}
+                if ida not in heard[b]:
+                    return {"step": i, "why": "node %s answered a complete digest exchange started by %s (%d packets, none lost) but its failure detector was never told it heard from %s"
+                                              % (nm(idb), nm(ida), j - i - 1, nm(ida)), "sig": "no-heartbeat"}
+            # account for the packets of the steps we looked at
+            for k in range(i, j):
+                o2, b2 = ops[k], obs[k]
+                if o2["op"] in ("deliver", "drop") and not b2.get("skipped"):
+                    inflight -= 1
+                inflight += len(b2["sent"])
+            i = j
+            continue
+        if op["op"] in ("deliver", "drop") and not ob.get("skipped"):
+            inflight -= 1
+        inflight += len(ob["sent"])
+        i += 1
+    return None
+
+
+def glue_probes(pid, binary, wd, rng, quick, which=("burst", "round", "heartbeat")):
+    """runs the probes; returns (violations, coverage)"""
+    viol, cov = [], {}
+    if "burst" in which:
+        v, c = burst_probe(pid, binary, wd, rng, 12 if quick else 120)
+        viol += v; cov["receive_loop"] = c
+    if "round" in which:
+        cases = [gen_round_case(rng, "round%d" % i) for i in range(12 if quick else 100)]
+        outs = run_world(binary, wd, cases, tag="round")
+        for c, o in zip(cases, outs):
+            f = round_monitor(c, o)
+            if f:
+                viol.append({"what": "%s peer-selection probe: %s" % (pid, f["why"]), "found_input": True,
+                             "replay_obj": {"property": pid, "kind": "round", "signature": f["sig"], "why": f["why"], "case": c}})
+                break
+        cov["peer_selection"] = {"histories": len(cases), "rounds": 200 * len(cases)}
+    if "heartbeat" in which:
+        cases = [gen_idle_exchange_case(rng, "idle%d" % i) for i in range(20 if quick else 200)]
+        outs = run_world(binary, wd, cases, tag="idle")
+        nex = 0
+        for c, o in zip(cases, outs):
+            nex += sum(1 for op in c["ops"] if op["op"] == "send")
+            f = heartbeat_monitor(c, o)
+            if f:
+                viol.append({"what": "%s heartbeat probe: %s" % (pid, f["why"]), "found_input": True,
+                             "replay_obj": {"property": pid, "kind": "heartbeat", "signature": f["sig"], "why": f["why"], "case": c}})
+                break
+        cov["heartbeat"] = {"histories": len(cases), "exchanges": nex}
+    return viol, cov
+
+
+def replay_glue(obj, binary, wd):
+    """replay of a glue-probe finding; returns True if obj was one"""
+    kind = obj.get("kind")
+    if kind not in ("burst", "round", "heartbeat"):
+        return False
+    case = obj["case"]
+    out = run_world(binary, wd, [case], tag="replay")[0]
+    if kind == "round":
+        print(json.dumps({"monitor": round_monitor(case, out)}, indent=1))
+    elif kind == "heartbeat":
+        print(json.dumps({"monitor": heartbeat_monitor(case, out)}, indent=1))
+    else:
+        seq = expand_bursts(case, out)
+        so = run_world(binary, wd, [seq], tag="replayseq")[0]
+        fa, fb = fold_views(case, out), fold_views(seq, so)
+        diff = sorted(str(k) for k in set(fa) | set(fb) if fa.get(k) != fb.get(k))
+        print(json.dumps({"panic": out.get("panic"), "views_that_differ": diff}, indent=1))
+    return True
